@@ -38,6 +38,13 @@ fn initial_tree() -> Vec<(&'static str, Option<&'static [u8]>, u32)> {
         ("d/sub/deep.txt", Some(b"deep\n"), 0o644),
         ("empty", None, 0o755),
         (".hid", Some(b"hidden\n"), 0o644),
+        // names whose order depends on how they are compared
+        ("B", Some(b"B\n"), 0o644),
+        ("a9", Some(b"a9\n"), 0o644),
+        ("a10", Some(b"a10\n"), 0o644),
+        ("Zz", Some(b"Zz\n"), 0o644),
+        ("\u{e9}t\u{e9}", Some(b"ete\n"), 0o644),
+        ("_u", Some(b"_u\n"), 0o644),
         ("d/.dh", Some(b"dh\n"), 0o644),
     ]
 }
